@@ -37,37 +37,38 @@ type run struct {
 	jsent []*replyShape // shape of the error reply sent to the pending join / leave
 	lsent []*replyShape
 
-	chans   []*muc.Channel
-	jst     []string // idle parked insel
-	lst     []string
-	jcancel []context.CancelFunc
-	lcancel []context.CancelFunc
-	jready  []string // "", "err", "ctx", "self"
-	lready  []string // "", "err", "ctx"
-	jid     []string // id of the pending join presence
-	lid     []string
-	managed map[int]int
-	cur     []int // occupant address the channel holds
-	req     []int // occupant address the current / last Join asked for
-	tok     []bool
-	member  []bool // specification ghost (observable events only)
-	refused []bool // the last Leave of the channel was answered with an error
+	chans      []*muc.Channel
+	jst        []string // idle parked insel
+	lst        []string
+	jcancel    []context.CancelFunc
+	lcancel    []context.CancelFunc
+	jready     []string // "", "err", "ctx", "self"
+	lready     []string // "", "err", "ctx"
+	jid        []string // id of the pending join presence
+	lid        []string
+	managed    map[int]int
+	cur        []int // occupant address the channel holds
+	req        []int // occupant address the current / last Join asked for
+	tok        []bool
+	member     []bool // specification ghost (observable events only)
+	refused    []bool // the last Leave of the channel was answered with an error
 	everJoined map[int]bool
-	feedCh  chan []byte
-	wrote   chan struct{} // signalled whenever the session has written something
-	serveRet atomic.Value // string: how Serve ended (set before the event is emitted)
-	lastItem *sentItem    // the item of the last presence fed (what the callback must report)
-	lastInv  *muc.Invitation // what the last mediated invitation fed says (nil: not checked)
-	lastHeld string       // last `=` token (addresses held, as Me() reports them)
-	blockedBy string // which parked call ("j0", "l1") keeps the serve loop blocked
-	blocked bool // serve loop blocked behind a parked Join (hand-off or unclosed error reply)
-	nsync   int
-	outPos  int
-	upres   int
-	inv     int
-	trace   []string
-	skipped []c06.Ev
-	problems []string
+	feedCh     chan []byte
+	wrote      chan struct{}   // signalled whenever the session has written something
+	serveRet   atomic.Value    // string: how Serve ended (set before the event is emitted)
+	lastItem   *sentItem       // the item of the last presence fed (what the callback must report)
+	lastInv    *muc.Invitation // what the last mediated invitation fed says (nil: not checked)
+	lastHeld   string          // last `=` token (addresses held, as Me() reports them)
+	blockedBy  string          // which parked call ("j0", "l1") keeps the serve loop blocked
+	blocked    bool            // serve loop blocked behind a parked Join (hand-off or unclosed error reply)
+	nsync      int
+	ncall      int
+	outPos     int
+	upres      int
+	inv        int
+	trace      []string
+	skipped    []c06.Ev
+	problems   []string
 }
 
 // occupant address a: room a%10, nickname a/10 (so a and a+10 are two nicknames in one room)
@@ -130,7 +131,9 @@ func newRun(r *common.Run, addrs []int, cf nsConf) (*run, error) {
 	return x, nil
 }
 
-func (x *run) problem(f string, a ...interface{}) { x.problems = append(x.problems, fmt.Sprintf(f, a...)) }
+func (x *run) problem(f string, a ...interface{}) {
+	x.problems = append(x.problems, fmt.Sprintf(f, a...))
+}
 
 func (x *run) lines() []string {
 	var l []string
@@ -314,6 +317,18 @@ func (x *run) sample() {
 	}
 }
 
+// requestSent: the request of a call went to the occupant address, with the type of the call and —
+// if the caller supplied a presence — under the caller's id (its type and to address have no effect).
+func (x *run) requestSent(call string, c int, id string, custom bool, ownID, to string) {
+	clause := map[string]string{"Join": "join-success-iff", "Leave": "leave-returns"}[call]
+	switch {
+	case id == "":
+		x.r.Fail(clause, "request-not-sent-to-the-occupant-address", x.lines(), fmt.Sprintf("%s of channel %d: no presence of the right type to %s appeared on the wire", call, c, to))
+	case custom && id != ownID:
+		x.r.Fail(clause, "request-lost-the-caller's-id", x.lines(), fmt.Sprintf("%s of channel %d was given a presence with id %q, the request on the wire has id %q", call, c, ownID, id))
+	}
+}
+
 func (x *run) joinReturned(c int, e c06.Ev) {
 	err, _ := e.Extra.(error)
 	x.jst[c] = "idle"
@@ -418,8 +433,11 @@ func (x *run) act(a string) bool {
 	num := func(k int) int { n, _ := strconv.Atoi(a[k:]); return n }
 	switch {
 	case a[0] == 'J':
-		// J<c> asks for the address the channel holds, J<c>@<a> uses the Nick option
-		spec := strings.Split(a[1:], "@")
+		// J<c> asks for the address the channel holds, J<c>@<a> uses the Nick option; a trailing `!`:
+		// through JoinPresence with a presence of the caller's (own id, a type and — on a re-join — a
+		// to address that must have no effect)
+		custom := strings.HasSuffix(a, "!")
+		spec := strings.Split(strings.TrimSuffix(a[1:], "!"), "@")
 		c, _ := strconv.Atoi(spec[0])
 		if c >= len(x.addrs) || x.jst[c] != "idle" || x.blocked {
 			return false
@@ -439,13 +457,23 @@ func (x *run) act(a string) bool {
 		label := "j" + strconv.Itoa(c)
 		first := x.chans[c] == nil
 		from := occ(x.cur[c])
+		x.ncall++
+		own := stanza.Presence{ID: fmt.Sprintf("own%d", x.ncall), Type: stanza.UnavailablePresence, To: jid.MustParse("elsewhere@conf.example.net/nobody")}
 		x.ctl.Go(label, func() {
 			var err error
-			if first {
+			switch {
+			case first && custom:
+				var ch *muc.Channel
+				own.To = from // the room comes from the presence here
+				ch, err = x.cl.JoinPresence(ctx, own, x.rs.S, opts...)
+				x.chans[c] = ch
+			case first:
 				var ch *muc.Channel
 				ch, err = x.cl.Join(ctx, from, x.rs.S, opts...)
 				x.chans[c] = ch
-			} else {
+			case custom:
+				err = x.chans[c].JoinPresence(ctx, own, opts...)
+			default:
 				err = x.chans[c].Join(ctx, opts...)
 			}
 			x.ctl.Emit(label, "ret:", err)
@@ -467,6 +495,7 @@ func (x *run) act(a string) bool {
 		x.tok[c] = false
 		x.wait(isEv(label, "park:muc.join.select"), label+" before its select")
 		x.jid[c] = x.awaitPresence(occ(want).String(), false)
+		x.requestSent("Join", c, x.jid[c], custom, own.ID, occ(want).String())
 	case a[0] == 's':
 		c := num(1)
 		if c >= len(x.addrs) || x.jst[c] != "parked" || (x.blocked && x.blockedBy != "j"+strconv.Itoa(c)) {
@@ -619,7 +648,9 @@ func (x *run) act(a string) bool {
 			x.blocked, x.blockedBy = true, "j"+strconv.Itoa(c) // the error reply stays open until the parked Join takes it
 		}
 	case a[0] == 'L':
-		c := num(1)
+		// L<c>; a trailing `!`: LeavePresence with a status and a presence of the caller's
+		custom := strings.HasSuffix(a, "!")
+		c, _ := strconv.Atoi(strings.TrimSuffix(a[1:], "!"))
 		if c >= len(x.addrs) || x.lst[c] != "idle" || x.chans[c] == nil || x.blocked || x.jst[c] != "idle" {
 			return false
 		}
@@ -627,13 +658,21 @@ func (x *run) act(a string) bool {
 		ctx, cancel := context.WithCancel(context.Background())
 		x.lcancel[c] = cancel
 		label := "l" + strconv.Itoa(c)
+		x.ncall++
+		own := stanza.Presence{ID: fmt.Sprintf("own%d", x.ncall), Type: stanza.SubscribePresence, To: jid.MustParse("elsewhere@conf.example.net/nobody")}
 		x.ctl.Go(label, func() {
-			err := x.chans[c].Leave(ctx, "")
+			var err error
+			if custom {
+				err = x.chans[c].LeavePresence(ctx, "gone fishing", own)
+			} else {
+				err = x.chans[c].Leave(ctx, "")
+			}
 			x.ctl.Emit(label, "ret:", err)
 		})
 		x.lst[c], x.lready[c] = "parked", ""
 		x.wait(isEv(label, "park:muc.leave.select"), label+" before its select")
 		x.lid[c] = x.awaitPresence(occ(x.cur[c]).String(), true)
+		x.requestSent("Leave", c, x.lid[c], custom, own.ID, occ(x.cur[c]).String())
 	case a[0] == 'l':
 		c := num(1)
 		if c >= len(x.addrs) || x.lst[c] != "parked" || (x.blocked && x.blockedBy != "l"+strconv.Itoa(c)) {
@@ -878,19 +917,19 @@ var corpus = []struct {
 	addrs string
 	sched string
 }{
-	{"0", "J0,s0,A0,L0,l0,U0"},                 // join, leave
-	{"0", "J0,s0,A0,A0,U0,A0"},                 // member presence, kicked, presence afterwards is ignored
-	{"0", "J0,A0,s0"},                          // self-presence before the joiner selects
-	{"0", "J0,s0,Ej0,A0,U0"},                   // join refused: later presences of that room are ignored
-	{"0", "J0,s0,Xj0,A0"},                      // join cancelled
-	{"0", "J0,s0,Xj0,J0,s0,A0"},                // cancelled join, then a re-join on the same channel
+	{"0", "J0,s0,A0,L0,l0,U0"},                   // join, leave
+	{"0", "J0,s0,A0,A0,U0,A0"},                   // member presence, kicked, presence afterwards is ignored
+	{"0", "J0,A0,s0"},                            // self-presence before the joiner selects
+	{"0", "J0,s0,Ej0,A0,U0"},                     // join refused: later presences of that room are ignored
+	{"0", "J0,s0,Xj0,A0"},                        // join cancelled
+	{"0", "J0,s0,Xj0,J0,s0,A0"},                  // cancelled join, then a re-join on the same channel
 	{"0", "J0,s0,A0,L0,l0,U0,J0,s0,A0,L0,l0,U0"}, // re-join after leaving
-	{"0", "J0,s0,A0,L0,U0,l0"},                 // unavailable presence processed before Leave selects
-	{"0", "J0,s0,A0,L0,l0,El0,U0"},             // leave refused
-	{"0", "J0,s0,A0,L0,l0,Xl0"},                // leave cancelled
-	{"0", "J0,s0,A0,U0,L0,l0"},                 // kicked, then Leave
+	{"0", "J0,s0,A0,L0,U0,l0"},                   // unavailable presence processed before Leave selects
+	{"0", "J0,s0,A0,L0,l0,El0,U0"},               // leave refused
+	{"0", "J0,s0,A0,L0,l0,Xl0"},                  // leave cancelled
+	{"0", "J0,s0,A0,U0,L0,l0"},                   // kicked, then Leave
 	{"0,1", "J0,s0,J1,s1,A1,A0,U1,A7,U7,I,N,L0,l0,U0"},
-	{"0,1", "A0,U0,A1,I,N,J1,s1,A0,A1"},         // presences for rooms never joined
+	{"0,1", "A0,U0,A1,I,N,J1,s1,A0,A1"}, // presences for rooms never joined
 	{"0", "J0,Ej0,s0,J0,s0,A0"},
 	// mediated invitations: the payload first, last, between other children; two invites in one x;
 	// messages without an invitation (body only, legacy direct invitation only, decline)
@@ -900,11 +939,11 @@ var corpus = []struct {
 	{"0,0", "J0,s0,A0,J1,U0,J1,s1,A0,U0"},
 	{"0,0", "J0,J1,s0,A0,J1,Xj0"},
 	// change of nickname on a re-join (Nick option)
-	{"0", "J0,s0,A0,J0@10,s0,A0,U0,A10,A10,L0,l0,U10"},   // confirmed: 303-style unavailable of the old nick, then the new self-presence
-	{"0", "J0,s0,A0,J0@10,s0,A10,A0,U0,U10"},             // confirmed at once; the old nickname means nothing afterwards
-	{"0", "J0,s0,A0,J0@10,s0,Ej0,A0,U10,U0"},             // refused (conflict): still in the room under the old nickname
-	{"0", "J0,s0,A0,J0@10,s0,Xj0,A10,U0"},                // cancelled
-	{"0", "J0@10,s0,A0,A10,L0,l0,U10"},                   // first join with the Nick option
+	{"0", "J0,s0,A0,J0@10,s0,A0,U0,A10,A10,L0,l0,U10"}, // confirmed: 303-style unavailable of the old nick, then the new self-presence
+	{"0", "J0,s0,A0,J0@10,s0,A10,A0,U0,U10"},           // confirmed at once; the old nickname means nothing afterwards
+	{"0", "J0,s0,A0,J0@10,s0,Ej0,A0,U10,U0"},           // refused (conflict): still in the room under the old nickname
+	{"0", "J0,s0,A0,J0@10,s0,Xj0,A10,U0"},              // cancelled
+	{"0", "J0@10,s0,A0,A10,L0,l0,U10"},                 // first join with the Nick option
 	// XEP-0045 confirmation of a nickname change: unavailable presence of the OLD nickname (status
 	// 303) while the join is pending, then the self-presence of the new one; a Leave afterwards
 	// must wait for the unavailable presence of the NEW nickname
@@ -913,7 +952,7 @@ var corpus = []struct {
 	// late error replies with the id of a join / leave that has already returned
 	{"0", "J0,s0,A0,Zj0,L0,l0,U0,Zl0,Zj0,N,J0,s0,A0,Zl0"},
 	{"0,1", "J0,s0,A0,J1,s1,Ej1,Zj1,L0,l0,El0,Zl0,Zj0"},
-	{"0,10", "J0,s0,A0,J1,s1,A10,J0@10,J1@0,U10,U0"},     // the other nickname is taken by our own second channel
+	{"0,10", "J0,s0,A0,J1,s1,A10,J0@10,J1@0,U10,U0"}, // the other nickname is taken by our own second channel
 	// round C: a channel that is NOT in the room (its join failed / was refused / it has left) shares
 	// the occupant address with one that is; its Leave is answered with an error, then the room
 	// removes the occupant: only the registration of the channel that holds the address counts
@@ -937,6 +976,10 @@ var corpus = []struct {
 	{"0", "%cn,J0,s0,A0,A0,Im,IbP,N,L0,l0,U0,A0"},
 	{"0,1", "%an,J0,s0,A0,J1,s1,Ej1:xb,A0:on110,A1,IM,U0:cn301"},
 	{"0", "IP,IbPs,IlP,Im,IuPb,Id"},
+	// round D: JoinPresence / LeavePresence with a presence of the caller's (id kept; type and to
+	// address without effect), Leave with a status
+	{"0", "J0!,s0,A0,J0@10!,s0,A10,L0!,l0,U10,J0!,s0,Ej0,J0,s0,A10,L0!,l0,El0:sb"},
+	{"0,1", "%a,J0!,s0,A0,J1@11!,s1,A11,L1!,l1,U11,L0!,U0,l0"},
 }
 
 func parseAddrs(s string) []int {
@@ -964,6 +1007,9 @@ func randSched(rnd *common.Rand, n, length int) []string {
 				ci, _ := strconv.Atoi(c)
 				j += "@" + strconv.Itoa(ci%10+10*rnd.Intn(2)) // (re-)join under nickname 0 or 1 of the channel's room
 			}
+			if rnd.Chance(1, 5) {
+				j += "!"
+			}
 			out = append(out, j)
 			if rnd.Chance(3, 4) {
 				out = append(out, "s"+c)
@@ -979,7 +1025,11 @@ func randSched(rnd *common.Rand, n, length int) []string {
 		case 12:
 			out = append(out, "Xj"+c)
 		case 13, 14:
-			out = append(out, "L"+c)
+			if rnd.Chance(1, 5) {
+				out = append(out, "L"+c+"!")
+			} else {
+				out = append(out, "L"+c)
+			}
 			if rnd.Chance(2, 3) {
 				out = append(out, "l"+c)
 			}
